@@ -128,7 +128,11 @@ pub(crate) fn compile_regex(
         // The fancy_regex crate internally seems to have flags that can be used
         // to enable multiline support, but they're not exposed via its
         // RegexBuilder. We instead just prefix with the right flags.
-        let updated_str = std::format!("(?ms){regex_str}");
+        //
+        // N.B. We only want `.` (and thus `*`) to match newlines; we must *not* enable
+        // the `m` flag, since that would make `^` and `$` match at line boundaries
+        // rather than only at the boundaries of the whole string.
+        let updated_str = std::format!("(?s){regex_str}");
         regex_str = updated_str.into();
     }
 
